@@ -1,10 +1,71 @@
 ------------------------------ MODULE MCStage ------------------------------
-EXTENDS Stage
+(* Universes (names, versions, announced predecessors, rename targets) for  *)
+(* the design check of Stage.tla, for scenario generation and for trace      *)
+(* validation; one TLC run per universe.                                     *)
+EXTENDS StageTrace
 
-\* two names, b after a; a has two versions
-NamesAB == {"a", "b"}
-VersAB == [n \in NamesAB |-> IF n = "a" THEN {1, 2} ELSE {1}]
-PrevAB == [n \in NamesAB |-> IF n = "b" THEN "a" ELSE ""]
+\* U1: b after a; a has two versions
+NamesAB == {"p", "q"}
+VersAB == [n \in NamesAB |-> IF n = "p" THEN {1, 2} ELSE {1}]
+PrevAB == [n \in NamesAB |-> IF n = "q" THEN "p" ELSE ""]
 RenNone == [n \in NamesAB |-> ""]
 SubSelf == [n \in NamesAB |-> {n}]
+\* U2: a predecessor cycle
+PrevCyc == [n \in NamesAB |-> IF n = "q" THEN "p" ELSE "q"]
+Vers1 == [n \in NamesAB |-> {1}]
+\* U3: same leaf name in two directories, one delivered under another name
+NamesDir == {"p", "s/p"}
+VersDir == [n \in NamesDir |-> IF n = "p" THEN {1, 2} ELSE {1}]
+PrevDir == [n \in NamesDir |-> IF n = "s/p" THEN "p" ELSE ""]
+RenDir == [n \in NamesDir |-> IF n = "p" THEN "out/p.z" ELSE ""]
+SubDir == [n \in NamesDir |-> IF n = "p" THEN {"p", "s/p"} ELSE {n}]
+\* U4: a name that is a substring of another one; c waits for a
+NamesSub == {"p", "pq", "r"}
+VersSub == [n \in NamesSub |-> {1}]
+PrevSub == [n \in NamesSub |-> IF n = "r" THEN "p" ELSE ""]
+RenSub == [n \in NamesSub |-> ""]
+SubSub == [n \in NamesSub |-> IF n = "p" THEN {"p", "pq"} ELSE {n}]
+
+-----------------------------------------------------------------------------
+(* Scenario generation: commands are issued only while the receiver is      *)
+(* quiescent (the harness runs every call to quiescence); every maximal      *)
+(* command sequence is printed.                                              *)
+VARIABLE cmds
+gvars == <<d, m, b, h, oD, oM, oH, oP, oE, l, cmds>>
+CONSTANTS MaxCmds, GenCrash, Emit
+
+Quiet == m.thr = {} /\ m.vq = {} /\ m.fq = {} /\ m.val = NoJob /\ m.fin = NoJob /\ m.rec = ""
+Cmd(c) == /\ Quiet /\ Len(cmds) < MaxCmds /\ cmds' = Append(cmds, c)
+
+GenInit == ObsInit /\ cmds = <<>>
+Internal ==
+  \/ \E t \in m.thr : RecvWrite(t) \/ RecvRecord(t) \/ RecvComplete(t)
+  \/ \E n \in Names : ValStart(n) \/ FinTake(n)
+  \/ ValWait \/ ValMark \/ PutLog \/ PutMoveLck \/ PutMoveFinal \/ PutMark \/ PutRmCmp
+  \/ RecWalk \/ RecCache \/ RecEnd
+GenNext ==
+  /\ UNCHANGED <<oD, oM, oH, oP, oE, l>>
+  /\ \/ (Internal /\ UNCHANGED cmds)
+     \/ \E r \in Requests :
+          Prepare(r.n, r.v, r.lo, r.hi, r.dv)
+          /\ Cmd([op |-> "recv", n |-> r.n, v |-> r.v, lo |-> r.lo, hi |-> r.hi, dv |-> r.dv])
+     \/ \E n \in Names : AnsStatus(n) /\ Cmd([op |-> "status", n |-> n])
+     \/ \E r \in Requests : r.dv = r.v /\ AnsReceived(r.n, r.v, r.lo, r.hi)
+          /\ Cmd([op |-> "received", n |-> r.n, v |-> r.v, lo |-> r.lo, hi |-> r.hi, dv |-> r.v])
+     \/ \E n \in Names : AgePart(n) /\ Cmd([op |-> "age", n |-> n])
+     \/ \E n \in Names : (CleanStray(n) \/ CleanLoop(n)) /\ Cmd([op |-> "clean"])
+     \/ \E n \in Names : TimerFire(n) /\ Cmd([op |-> "timer", n |-> n])
+     \/ ExpireCache /\ Cmd([op |-> "expire"])
+     \/ \E n \in Names, k \in Blocks : Overwrite(n, k)
+          /\ Cmd([op |-> "overwrite", n |-> n, k |-> k, ext |-> IF d.part[n] # Nil THEN ".part" ELSE ".full"])
+     \/ GenCrash /\ Crash /\ Cmd([op |-> "restart"])
+GenSpec == GenInit /\ [][GenNext]_gvars
+
+\* the design and the observation specifications with every variable of this module
+DesignSpec == GenInit /\ [][Next /\ UNCHANGED <<oD, oM, oH, oP, oE, l, cmds>>]_gvars
+MCObsSpec == GenInit /\ [][ObsNext /\ UNCHANGED cmds]_gvars
+
+EmitScenario ==
+  (Emit /\ Quiet /\ Len(cmds) = MaxCmds) => PrintT("SCN " \o ToJson([cmds |-> cmds]))
+GenView == <<d, m, b, cmds>>
 =============================================================================
